@@ -393,7 +393,7 @@ func runTableChecks(prog *Program, prop string) []tableResult {
 	if prop == "C13" {
 		return append(runWriterChecks(prog, prop), compressTableChecks(prog)...)
 	}
-	if prop != "C14" {
+	if prop != "C14" && prop != "C12" && prop != "C03" {
 		return runWriterChecks(prog, prop)
 	}
 	res := runWriterChecks(prog, prop)
@@ -423,6 +423,10 @@ func runTableChecks(prog *Program, prop string) []tableResult {
 	sort.Strings(hk)
 	// one obligation per entry: named by the entry, so that each defect is identified separately
 	for _, c := range rotab {
+		if prop != "C14" {
+			// the read-only classification is C14's business; C12 and C03 only need the handler table
+			break
+		}
 		r := tableResult{Name: "table/read-only-entry-is-read-only-in-redis/" + c, OK: ro[strings.ToLower(c)]}
 		r.Detail = fmt.Sprintf("readOnlyCommands contains %q; Redis flags it %s", c, map[bool]string{true: "readonly", false: "as a write command: it may be routed to a replica under the REPLICA/BOTH strategies"}[r.OK])
 		if !r.OK {
